@@ -60,3 +60,15 @@ Definition check (T : tables) (c : lcase) : bool :=
 
 Definition bad_cases_with (T : tables) (cs : list (nat * lcase)) : list nat :=
   map fst (filter (fun c => negb (check T (snd c))) cs).
+
+(** the tables as documented (= what gen/backend.py extracts from the unmodified source); used for
+    the correspondence run only when the translator refuses the source, so that the run can still
+    turn the deviation into a concrete failing input *)
+Definition doc_tables : tables :=
+  {| tb_initial := INITIALIZING; tb_status := fun s => if str_eqb s c_offline then ERROR else spec_status s;
+     tb_terminal := spec_terminal; tb_guard := spec_guard;
+     tb_store := fun s => status_eqb s DONE;
+     tb_fast_b := fun h s => h && status_eqb s DONE; tb_tail_b := fun s => status_eqb s DONE;
+     tb_fast_a := fun h s => h && status_eqb s DONE; tb_tail_a := fun s => status_eqb s DONE;
+     tb_submit_raises := fun s => status_eqb s ERROR;
+     tb_init := 0; tb_cond := fun r => r <=? 5; tb_incr := fun r => r + 1; tb_final := fun r => 5 <? r |}.
